@@ -32,7 +32,9 @@ Record case := mkCase {
      notion 0 = filesize, 1 = uintN readers, 2 = hash functions, 3 = module fields, 4 = math on data *)
   c_whole : list (N * N * bool);
   (* rules `$a at n or ...`: (n, the literal, did the rule match?, the matches reported for $a) *)
-  c_anchored : list (N * list N * bool * list rmatch) }.
+  c_anchored : list (N * list N * bool * list rmatch);
+  (* MatchList::add driven directly (hook): the calls (base, start, end, replace_if_longer) and the final list (base, start, end) *)
+  c_ml : list (list (N * N * N * bool) * list (N * N * N)) }.
 
 Definition mtch_eqb (a b : mtch) : bool :=
   (m_start a =? m_start b) && (m_len a =? m_len b) && (snd a =? snd b).
@@ -82,7 +84,14 @@ Definition anchored_k_ok (k : case) (a : N * list N * bool * list rmatch) : bool
   (let obs := map rm_m res in
    list_eqb mtch_eqb obs (anchored_scan keep_new (c_file k) n lit (c_blocks k))).
 
+Definition bm_eqb (a b : bmatch) : bool :=
+  (b_base a =? b_base b) && (b_start a =? b_start b) && (b_end a =? b_end b).
+Definition ml_ok (x : list (N * N * N * bool) * list (N * N * N)) : bool :=
+  let model := fold_left (fun acc a => let '(b, s, e, r) := a in add_b r (b, s, e) acc) (fst x) [] in
+  list_eqb bm_eqb (snd x) model.
+
 Definition check_case (k : case) : bool :=
+  forallb ml_ok (c_ml k) &&
   forallb (anchored_k_ok k) (c_anchored k) &&
   forallb (fun w => let '(h, notion, defined) := w in Bool.eqb defined (whole_model h notion)) (c_whole k) &&
   Nat.eqb (length (c_blocks k)) (length (c_per_block k)) && within_ok k &&
